@@ -89,7 +89,11 @@ def Net.step (net : Net) : Op → StepOut
   | .node id addr =>
     match net.nodes.find id with
     | some _ => { net := net, err := some "exists" }
-    | none => { net := net.setNode id (init id addr), who := id }
+    | none =>
+      -- gossip addresses are unique (IP:port); a second node with a used address is refused
+      match net.nodeByAddr addr with
+      | some _ => { net := net, err := some "exists" }
+      | none => { net := net.setNode id (init id addr), who := id }
   | .upsert n k v => localOp net n (fun s => upsertLocal s k v)
   | .delete n k => localOp net n (fun s => deleteLocal s k)
   | .leave n => localOp net n leaveLocal
